@@ -35,7 +35,8 @@ UNMET_A = ['env:SIM_NOT_SET', 'env:SIM_A==2', '--sim-absent', 'win32', 'module:s
            'module:xdoctest.sim_nope', 'module:sim_nopkg.sub']
 UNMET_B = ['env:SIM_A!=1', 'pypy', 'nt', 'env:SIM_OTHER==x', '--sim-absent-2']
 STMT_FORMS = ['assign', 'emit', 'print', 'expr', 'multiline', 'multicall', 'for', 'if', 'with', 'try', 'semi',
-              'semiemit', 'callmod', 'strdirective', 'write', 'decoclass', 'decoasync', 'decodef2', 'blankprompt', 'comment']
+              'semiemit', 'callmod', 'strdirective', 'write', 'decoclass', 'decoasync', 'decodef2', 'blankprompt', 'comment',
+              'tqdirective', 'badcompile']
 ENV = {'environ': {'SIM_A': '1'}, 'argv': ['xdsim', '--sim-flag']}
 
 
@@ -94,7 +95,15 @@ def gen_history(rng, pfx, modname, n_events):
         if form == 'blankprompt':
             st['n'] = rng.choice([1, 2])
             st['ps2'] = False
-        if rng.random() < 0.35 and form not in W.NOCODE_FORMS:
+        if form == 'tqdirective':
+            st['ps2'] = False
+        if form == 'badcompile':
+            # parses, but does not compile: only a problem where it is not skipped
+            st['text'] = rng.choice(['return 5', 'yield 5', 'break', 'continue'])
+            st['pts'] = []
+            st['ps2'] = False
+            st['sep'] = 'blank'
+        if rng.random() < 0.35 and form not in W.NOCODE_FORMS and form not in ('tqdirective', 'badcompile'):
             st['inline'] = rand_directive(rng, a, b)
             st['inline_at'] = rng.choice(['first', 'last'])
         # want
